@@ -367,6 +367,15 @@ fn gen_program(t: &mut Tape, class: &str, uses_std: bool) -> BTreeMap<String, St
         }
         "rejected" => {
             let k = 1 + t.below(3);
+            // now and then very many errors (one per broken top-level statement): counts around the limits of small integers
+            if t.chance(1, 10) {
+                let n = *t.pick(&[100usize, 254, 255, 256, 257, 300, 511, 512, 513]);
+                let mut l = String::new();
+                for i in 0..n {
+                    l.push_str(&format!("zm{} :: )\n", i));
+                }
+                b.top_extra.push(l.trim_end().to_string());
+            }
             for _ in 0..k {
                 let q = b.fresh("q");
                 // every fourth planted error is one that is found outside function bodies / by a later stage:
